@@ -90,6 +90,27 @@ def scalar(ctx):
             raise AnalysisError("C37.scalar", fn.site, f"{name}: outside the bit-provenance fragment: {e}")
         ctx.check(bad is None, "C37.scalar-wiring", fn.site, name, found=(bad or "agrees") + f"  [{n} (width, offset) pairs evaluated]",
                   required="every result bit is wired to the documented source bit (value / fill vector / placeholder) for widths 1..6 and offsets 0..width")
+        # the property says "every offset": an offset signal wider than needed can carry values above the width
+        if name.startswith("generic") or bad is not None:
+            continue
+        big, nb = None, 0
+        try:
+            for w in (1, 2, 3, 5):
+                for rep in range(1, 4):
+                    for k in range(w + 1, 2 ** rep):
+                        nb += 1
+                        args = [const_bits(k, rep) if (isinstance(a, int) and not isinstance(a, Bits)) else a for a in _scalar_args(name, w, k)]
+                        try:
+                            got = ev.call(name, args, {})
+                        except WiringError as e:
+                            big = big or f"width {w}, {rep}-bit offset {k}: the generator fails: {e}"
+                            continue
+                        if big is None and (not isinstance(got, Bits) or tuple(got) != tuple(_scalar_ref(name, w, k))):
+                            big = f"width {w}, {rep}-bit offset signal carrying {k}: result bits {list(got) if isinstance(got, Bits) else got!r}, documented {list(_scalar_ref(name, w, k))}"
+        except NotEvaluable as e:
+            raise AnalysisError("C37.scalar", fn.site, f"{name}: outside the bit-provenance fragment: {e}")
+        ctx.check(big is None, "C37.offsets-beyond-width", fn.site, name, found=(big or "agrees") + f"  [{nb} (width, offset) pairs with offset > width evaluated]",
+                  required="for an offset above the width a shift returns the placeholder in every bit, a rotation rotates by offset modulo the width")
 
 
 def _elems(tag, n, w):
